@@ -429,52 +429,33 @@ fn run_op(c: &mut Case, t: &[&str]) -> String {
 
 /// A linear order of files consistent with the order inside every per-name vector of
 /// `definitions` and `usage_by_fixture` (the only thing the scan's schedule decides).
+/// the order of files inside every per-name vector, as the (parallel) scan left it:
+/// `D:<name>=f1,f2;…;U:<name>=f1,f2;…` (D = definitions, U = usage_by_fixture)
 fn observed_order(c: &Case) -> String {
-    use std::collections::{BTreeMap, BTreeSet};
-    let mut succ: BTreeMap<String, BTreeSet<String>> = BTreeMap::new();
-    let mut indeg: BTreeMap<String, usize> = BTreeMap::new();
-    let mut add_seq = |seq: Vec<String>| {
-        let mut uniq: Vec<String> = vec![];
+    let uniq = |seq: Vec<String>| -> Vec<String> {
+        let mut u: Vec<String> = vec![];
         for f in seq {
-            if !uniq.contains(&f) {
-                uniq.push(f);
+            if !u.contains(&f) {
+                u.push(f);
             }
         }
-        for f in &uniq {
-            indeg.entry(f.clone()).or_insert(0);
-            succ.entry(f.clone()).or_default();
-        }
-        for w in uniq.windows(2) {
-            if succ.get_mut(&w[0]).unwrap().insert(w[1].clone()) {
-                *indeg.get_mut(&w[1]).unwrap() += 1;
-            }
-        }
+        u
     };
+    let mut out: Vec<String> = vec![];
     for e in c.db.definitions.iter() {
-        add_seq(e.value().iter().map(|d| c.rel(&d.file_path)).collect());
+        let all: Vec<String> = e.value().iter().map(|d| c.rel(&d.file_path)).collect();
+        if uniq(all.clone()).len() > 1 {
+            out.push(format!("D:{}={}", e.key(), all.join(",")));
+        }
     }
     for e in c.db.usage_by_fixture.iter() {
-        add_seq(e.value().iter().map(|(p, _)| c.rel(p)).collect());
-    }
-    let mut out = vec![];
-    let mut ready: BTreeSet<String> = indeg.iter().filter(|(_, d)| **d == 0).map(|(k, _)| k.clone()).collect();
-    while let Some(f) = ready.iter().next().cloned() {
-        ready.remove(&f);
-        out.push(f.clone());
-        for s in succ.get(&f).cloned().unwrap_or_default() {
-            let d = indeg.get_mut(&s).unwrap();
-            *d -= 1;
-            if *d == 0 {
-                ready.insert(s);
-            }
+        let all: Vec<String> = e.value().iter().map(|(p, _)| c.rel(p)).collect();
+        if uniq(all.clone()).len() > 1 {
+            out.push(format!("U:{}={}", e.key(), all.join(",")));
         }
     }
-    for (f, d) in indeg.iter() {
-        if *d > 0 && !out.contains(f) {
-            out.push(f.clone()); // cyclic constraints cannot come from one schedule; keep going
-        }
-    }
-    if out.is_empty() { "-".into() } else { out.join(",") }
+    out.sort();
+    if out.is_empty() { "-".into() } else { out.join(";") }
 }
 
 /// does the implementation's parser accept the text? (reported so that texts on which CPython and
